@@ -160,6 +160,11 @@ theorem largest_spec {h : Net} (wf : h.WF) :
     · obtain ⟨m', e, hmem, hmax⟩ := largestOf_spec (components h) hne
       rw [hm] at e; cases e; exact ⟨hmem, hmax⟩
 
+/-- … and among the components of maximal size it is the first one yielded (Python's `max` keeps the first) -/
+theorem largest_is_first (h : Net) (m : List PyId) (hm : largestCC h = some m) :
+    ∃ q1 q2, components h = q1 ++ m :: q2 ∧ (∀ c ∈ q1, c.length < m.length) ∧ (∀ c ∈ q2, c.length ≤ m.length) :=
+  largestOf_first (components h) m hm
+
 /-- `node_connected_component(H, n)`: raises exactly for a missing node, otherwise returns the block of the
     partition that contains `n` (as a set) -/
 theorem node_component_spec {h : Net} (wf : h.WF) (n : PyId) :
